@@ -12,7 +12,7 @@ import (
 // the buffer must be exactly the real encoder's output for the decoded value,
 // with the full 8-byte topology suffix or with no suffix at all.
 func ZZ_C07_A() {
-	maxL := 186
+	maxL := 200
 	if vr.Tier() > 0 {
 		maxL = 300
 	}
@@ -21,7 +21,7 @@ func ZZ_C07_A() {
 	orig := append([]byte{}, b...)
 	if vr.Tier() == 0 {
 		// quick tier only: bound the DECLARED transaction count to 4 (a larger count cannot fit in
-		// 186 bytes and costs one path per value 5..255 at the decoder's make()); thorough has no such bound
+		// 200 bytes and costs one path per value 5..255 at the decoder's make()); thorough has no such bound
 		if L >= 48 && b[44] == 0 && b[45] == 0 {
 			vr.Assume(b[46] == 0 && b[47] <= 4)
 		} else if L >= 112 && b[44] == 0 && b[45] == 2 {
